@@ -13,7 +13,8 @@ Anything outside the subset raises Unsupported and the tool exits 4 with
 Every C++ operation whose result type has a fixed width is followed by an
 explicit wrap (cast_int / cast_long / ...) from Model/Bits.v.
 """
-import json, os, subprocess, sys, hashlib
+import json
+import re, os, subprocess, sys, hashlib
 
 VERIF = os.path.dirname(os.path.dirname(os.path.abspath(__file__)))
 REPO = os.environ.get("VERIF_REPO", "/repo")
@@ -164,7 +165,16 @@ class Fn:
             else:
                 raise Unsupported("callee " + callee["kind"])
             if len(n["inner"]) != 1:
-                raise Unsupported("call with arguments: " + nm)
+                if not self.allow_calls:
+                    raise Unsupported("call with arguments: " + nm)
+                args = []
+                for a in n["inner"][1:]:
+                    e, ek = self.expr(a)
+                    if ek == "bool":
+                        e = "(if %s then 1 else 0)" % e
+                    args.append(e)
+                CALLS.add(nm)
+                return ("(val (%s%s %s))" % (self.prefix_for(nm), nm, " ".join(args)), "Z")
             DEPS.add(nm)
             return (nm, "Z")
         if k == "UnaryOperator":
@@ -301,6 +311,11 @@ class Fn:
         return Fn._n
 
     assigned = {}
+    allow_calls = False
+    prefixes = {}
+
+    def prefix_for(self, nm):
+        return self.prefixes.get(nm, "")
 
 
 def find_enum(n):
@@ -314,6 +329,7 @@ def find_enum(n):
 
 
 DEPS = set()
+CALLS = set()
 
 
 def body_of(decl):
@@ -333,6 +349,38 @@ def translate_fn(header, cls, name, out_member=None):
     f = Fn(name)
     f.assigned = {}
     g = f.stmts([body_of(d)], out_member)
+    return f, g
+
+
+def find_decls(o, name, out):
+    if o.get("name") == name and o.get("kind") in ("CXXMethodDecl", "FunctionDecl") \
+            and any(c["kind"] == "CompoundStmt" for c in o.get("inner", [])):
+        out.append(o)
+    for c in o.get("inner", []):
+        if isinstance(c, dict):
+            find_decls(c, name, out)
+
+
+def translate_fn_ordered(header, qualified, prefixes):
+    """a free or static function over ints: parameters in declaration order; calls of
+    other translated functions allowed.  For a template, the int instantiation is taken."""
+    name = qualified.split("::")[-1]
+    cands = []
+    for o in clang_ast(header, qualified):
+        find_decls(o, name, cands)
+    cands = [o for o in cands if re.match(r"^(int|bool|_Bool) \((int(, int)*)?\)$", qt(o))]
+    if len(cands) != 1:
+        raise Unsupported("%d candidates for %s" % (len(cands), qualified))
+    d = cands[0]
+    f = Fn(name)
+    f.assigned = {}
+    f.allow_calls = True
+    f.prefixes = prefixes
+    f.params = [c["name"] for c in d["inner"] if c["kind"] == "ParmVarDecl"]
+    declared = list(f.params)
+    g = f.stmts([body_of(d)], None)
+    if f.params != declared:
+        raise Unsupported("free name in " + qualified)
     return f, g
 
 
@@ -403,20 +451,66 @@ def gen_terminal():
     return "\n".join(parts)
 
 
-def main():
-    os.makedirs(OUTDIR, exist_ok=True)
-    try:
-        txt = gen_terminal()
-    except Unsupported as e:
-        print("translation-unavailable", e)
-        return 4
-    p = os.path.join(OUTDIR, "Terminal.v")
+LEVEL_FNS = [
+    # (qualified C++ name, Gallina name); callees first
+    ("MEDDLY::ABS", "ABS"),
+    ("MEDDLY::MAX", "MAX"),
+    ("MEDDLY::isLevelAbove", "isLevelAbove"),
+    ("MEDDLY::MDD_levels::downLevel", "MDD_downLevel"),
+    ("MEDDLY::MDD_levels::upLevel", "MDD_upLevel"),
+    ("MEDDLY::MDD_levels::topLevel", "MDD_topLevel"),
+    ("MEDDLY::MXD_levels::downLevel", "MXD_downLevel"),
+    ("MEDDLY::MXD_levels::upLevel", "MXD_upLevel"),
+    ("MEDDLY::MXD_levels::topLevel", "MXD_topLevel"),
+    ("MEDDLY::MXD_levels::topUnprimed", "MXD_topUnprimed"),
+    ("MEDDLY::MXD_levels::unprimedOfLevel", "MXD_unprimedOfLevel"),
+    ("MEDDLY::MXD_levels::primedOfLevel", "MXD_primedOfLevel"),
+]
+
+
+def gen_levels():
+    parts = ["(* GENERATED by tools/cxx2v.py from %s/src/forest_levels.h and src/defines.h"
+             " -- do not edit. *)" % REPO,
+             "From Coq Require Import ZArith Bool String.",
+             "From Meddly Require Import Model.Bits.",
+             "Local Open Scope Z_scope.", "Local Open Scope string_scope.", "",
+             "Definition val (r : res) : Z := match r with Ok v => v | Err _ => 0 end.", ""]
+    done = set()
+    for q, gname in LEVEL_FNS:
+        CALLS.clear()
+        f, g = translate_fn_ordered("forest_levels.h", q, {})
+        for c in CALLS:
+            if c not in done:
+                raise Unsupported("%s calls %s, which is not translated" % (q, c))
+        if "(Err" in g:
+            # callers read results through [val]: only sound for functions that cannot throw
+            raise Unsupported(q + " can throw")
+        parts.append(emit_def(gname, f.params, g))
+        if "::" not in q.replace("MEDDLY::", "", 1):
+            done.add(gname)
+    return "\n".join(parts)
+
+
+def write_if_changed(fname, txt):
+    p = os.path.join(OUTDIR, fname)
     old = open(p).read() if os.path.exists(p) else None
     if old != txt:
         with open(p, "w") as f:
             f.write(txt)
-    print("Gen/Terminal.v sha256", hashlib.sha256(txt.encode()).hexdigest()[:16],
+    print("Gen/%s sha256" % fname, hashlib.sha256(txt.encode()).hexdigest()[:16],
           "(changed)" if old != txt else "(unchanged)")
+
+
+def main():
+    os.makedirs(OUTDIR, exist_ok=True)
+    try:
+        txt = gen_terminal()
+        lev = gen_levels()
+    except Unsupported as e:
+        print("translation-unavailable", e)
+        return 4
+    write_if_changed("Terminal.v", txt)
+    write_if_changed("Levels.v", lev)
     return 0
 
 
